@@ -25,4 +25,11 @@ func init() {
 		_ = fs.Parse(args)
 		return meshfam.GenRandom(*out, *seed, *n, *steps, *slots, *maxv)
 	}
+	commands["gen-exec"] = func(args []string) error {
+		fs := flag.NewFlagSet("gen-exec", flag.ExitOnError)
+		in := fs.String("in", "", "cases ndjson")
+		out := fs.String("out", "", "trace ndjson")
+		_ = fs.Parse(args)
+		return meshfam.RunGenerators(*in, *out)
+	}
 }
